@@ -169,7 +169,15 @@ def finish(prop, tier, runs, t0, seed, extra_cov=None, selftest=None):
         "trusted_base": ["rustc nightly front end (parsing, expansion, type check, MIR construction, layout, const eval)",
                          "anchor-lang 0.32.1 meaning of #[account(..)] constraints and account wrapper types",
                          "SPL token / token-2022 program semantics",
-                         "wpfacts driver serialisation (driver/src/main.rs) and the transparent-wrapper table of analysis/prov.py"],
+                         "wpfacts driver serialisation (driver/src/main.rs), the transparent-wrapper table of analysis/prov.py and the "
+                         "canonicalisation passes of analysis/canon.py (inlining, jump threading, tuple scalar replacement, min/max recognition)"],
+        "canonicalisation": {
+            "passes": "before any rule runs the facts are brought to one canonical shape (analysis/canon.py): moved / renamed items are analysed under their "
+                      "reference path, functions new to the tree and the listed single-role helpers are inlined into their callers (with `?` threading), "
+                      "matched-on tuples are replaced by their components, hand-written min / max selections are read as min / max, materialised booleans are threaded "
+                      "back into control flow",
+            "applied": sorted({l for run in runs for l in (getattr(run.facts, "canon_log", []) + (getattr(run.sdk, "canon_log", []) if run.sdk is not None else []))})[:40],
+        },
         "exhaustive": False,
     }
     if extra_cov:
